@@ -419,10 +419,10 @@ pub fn suite_http(dir: &str, seed: u64, thorough: bool, st: &mut Stats) {
 /// only when `poll_complete` returns Ready (which it does after `seek_pending` Pending results); a read issued
 /// before that still sees the old position, and a second `start_seek` in between is refused -- as
 /// `tokio::io::BufReader` and `tokio::fs::File` do.
-pub struct ScriptFile { pub data: Vec<u8>, pub pos: u64, pub sched: Vec<Ev>, pub idx: usize, pub seek_pending: Vec<u8>, pub sidx: usize, pub target: Option<(u64, u8)>, pub fail_read: Option<usize>, pub reads: usize }
+pub struct ScriptFile { pub base: u64, pub data: Vec<u8>, pub pos: u64, pub sched: Vec<Ev>, pub idx: usize, pub seek_pending: Vec<u8>, pub sidx: usize, pub target: Option<(u64, u8)>, pub fail_read: Option<usize>, pub reads: usize }
 
 impl ScriptFile {
-    pub fn new(data: Vec<u8>, sched: Vec<Ev>, seek_pending: Vec<u8>) -> Self { ScriptFile { data, pos: 0, sched, idx: 0, seek_pending, sidx: 0, target: None, fail_read: None, reads: 0 } }
+    pub fn new(data: Vec<u8>, sched: Vec<Ev>, seek_pending: Vec<u8>) -> Self { ScriptFile { base: 0, data, pos: 0, sched, idx: 0, seek_pending, sidx: 0, target: None, fail_read: None, reads: 0 } }
 }
 
 impl AsyncRead for ScriptFile {
@@ -430,8 +430,9 @@ impl AsyncRead for ScriptFile {
         let me = &mut *self;
         me.reads += 1;
         if me.fail_read == Some(me.reads) { return Poll::Ready(Err(std::io::Error::new(std::io::ErrorKind::Other, "injected read error"))); }
-        let pos = (me.pos as usize).min(me.data.len());
-        let left = me.data.len() - pos;
+        // (with a base the vector is the file's content from that offset on; nothing is served from below it)
+        let pos = (me.pos.saturating_sub(me.base) as usize).min(me.data.len());
+        let left = if me.pos < me.base { 0 } else { me.data.len() - pos };
         let want = if me.idx < me.sched.len() {
             let e = me.sched[me.idx];
             me.idx += 1;
@@ -507,6 +508,32 @@ pub fn suite_ioread(dir: &str, seed: u64, thorough: bool, st: &mut Stats) {
             }
         }
         out.push(&line, &items_str(&items));
+        // the same file content placed beyond 2^32 (chunk data of a large archive): the same items for the shifted ranges
+        if rng.chance(1, 3) {
+            const BIG: u64 = (5 << 32) + 7;
+            let (f3, s3) = (file.clone(), sched.clone());
+            let r3: Vec<ChunkOffset> = ranges.iter().map(|(o, s)| ChunkOffset::new(*o + BIG, *s)).collect();
+            let sp3: Vec<u8> = vec![0, 1, 0, 2];
+            let rb = std::panic::catch_unwind(move || {
+                let rt = tokio::runtime::Builder::new_current_thread().build().unwrap();
+                rt.block_on(async move {
+                    let mut sf = ScriptFile::new(f3, s3, sp3);
+                    sf.base = BIG;
+                    let mut reader = IoReader::new(sf);
+                    let mut stt = reader.read_chunks(r3);
+                    let mut items: Vec<Result<Vec<u8>, String>> = vec![];
+                    while let Some(it) = stt.next().await {
+                        match it { Ok(b) => items.push(Ok(b.to_vec())), Err(e) => { items.push(Err(if e.kind() == std::io::ErrorKind::UnexpectedEof { "EOF".into() } else { "IO".into() })); break; } }
+                    }
+                    items
+                })
+            });
+            let big_items = rb.unwrap_or_else(|_| vec![Err("PANIC".to_string())]);
+            st.evaluations += 1;
+            st.oracle_checks += 1;
+            st.count("ioread/beyond-2^32");
+            if big_items != items { st.violation("C08", "local reader delivers other items for the same ranges placed beyond 2^32", &line); }
+        }
     }
     // IoReader::read_at (the header reads of a local archive): exactly the requested bytes for small and for large
     // sizes (around and above the 1 MiB the reader allocates at first), with data following in the file; an error
